@@ -104,7 +104,7 @@ impl Structured {
 fn mode_for(kind: &Kind, f: &FileSpec) -> Mode {
     match kind {
         Kind::Hook { aad, cs } => Mode::Hook { key: f.a.clone(), aad: aad.clone(), cs: *cs },
-        Kind::Key { r_priv } => Mode::Key { s_priv: f.a.clone(), r_priv: r_priv.clone(), e_priv: Some(f.b.clone()), payload: Some(f.c.clone()) },
+        Kind::Key { r_priv } => Mode::Key { s_priv: f.a.clone(), r_priv: r_priv.clone(), e_priv: Some(f.b.clone()), payload: Some(f.c.clone()), omit_e_pub: false },
         Kind::Pass { password } => Mode::Pass { password: password.clone(), salt: f.a.clone() },
     }
 }
